@@ -85,6 +85,9 @@ type Config struct {
 	Preimage string
 	HashKind string // "ok" | "upper" | "short" | "long" | "non_hex" | "empty"
 	Nonce    string
+	// Form: how the JSON of the secret is written. "" = as the library's SerializeSecret writes it; the others are the
+	// same JSON value in another spelling (white space around or inside, escaped characters, other member order)
+	Form string
 }
 
 var nonceCtr uint64
@@ -125,6 +128,9 @@ func GenConfig(t *rapid.T, kind string) Config {
 	if kind == "HTLC" {
 		c.Preimage = hex.EncodeToString(rapid.SliceOfN(rapid.Byte(), 0, 40).Draw(t, "preimage"))
 		c.HashKind = rapid.SampledFrom([]string{"ok", "ok", "ok", "ok", "upper", "short", "long", "non_hex", "empty"}).Draw(t, "hash_kind")
+	}
+	if rapid.IntRange(0, 5).Draw(t, "secret_respelled") == 0 {
+		c.Form = rapid.SampledFrom(Forms).Draw(t, "secret_form")
 	}
 	n := atomic.AddUint64(&nonceCtr, 1)
 	h := sha256.Sum256([]byte(fmt.Sprintf("nonce %d %d", n, rapid.Uint64().Draw(t, "nonce"))))
@@ -248,7 +254,39 @@ func (c Config) Secret() string {
 		body["tags"] = [][]string{}
 	}
 	b, _ := json.Marshal(body)
-	return fmt.Sprintf("[\"%s\", %s]", c.Kind, string(b))
+	return respell(c.Form, c.Kind, string(b), body)
+}
+
+// Forms lists the non-canonical spellings of a secret's JSON.
+var Forms = []string{"leading_space", "leading_newline", "leading_tab_crlf", "trailing_space", "inner_spaces", "escaped_kind", "escaped_member_name", "members_reordered", "compact"}
+
+func respell(form, kind, obj string, body map[string]any) string {
+	canon := fmt.Sprintf("[\"%s\", %s]", kind, obj)
+	switch form {
+	case "leading_space":
+		return " " + canon
+	case "leading_newline":
+		return "\n" + canon
+	case "leading_tab_crlf":
+		return "\t\r\n" + canon
+	case "trailing_space":
+		return canon + " \n"
+	case "inner_spaces":
+		return fmt.Sprintf("[ \"%s\" ,\n %s ]", kind, strings.Replace(obj, "\":", "\" : ", 1))
+	case "escaped_kind":
+		// "P2PK" / "HTLC" with the first letter as a \u escape: the same JSON string
+		return fmt.Sprintf("[\"\\u%04x%s\", %s]", kind[0], kind[1:], obj)
+	case "escaped_member_name":
+		return fmt.Sprintf("[\"%s\", %s]", kind, strings.Replace(obj, "\"data\":", "\"d\\u0061ta\":", 1))
+	case "members_reordered":
+		d, _ := json.Marshal(body["data"])
+		n, _ := json.Marshal(body["nonce"])
+		tg, _ := json.Marshal(body["tags"])
+		return fmt.Sprintf("[\"%s\", {\"tags\":%s,\"nonce\":%s,\"data\":%s}]", kind, tg, n, d)
+	case "compact":
+		return fmt.Sprintf("[\"%s\",%s]", kind, obj)
+	}
+	return canon
 }
 
 // Sign produces a BIP-340 signature (hex) by pool key i over sha256(msg) with nonce variant v.
